@@ -27,7 +27,39 @@ def prepare(prog):
         prepare_knobs(prog)
     except KeyError:
         pass        # gen_knobs_init is then reported as unreachable on its own
+    try:
+        prepare_segment_fields(prog)
+    except KeyError:
+        pass        # Segment.fields.__init__ is then reported as unreachable on its own
     return q, stmts
+
+
+SEG_FIELDS = ("baseline_cpu_seconds", "memory_gb", "storage_read_gb")
+
+
+def prepare_segment_fields(prog):
+    """the leading plain assignments of Segment.__init__ (everything before the first compound statement, which selects the
+    scaling law), as a constructor `Segment.fields.__init__(self, baseline_cpu_seconds, memory_gb, storage_read_gb)`.
+    Dropped: the selection of scaling_func from cpu_scaling and the refusal of an unknown law name (not about these fields;
+    the extraction refuses if a dropped statement stores to one of the three fields or rebinds one of the three parameters)."""
+    from pyvc.extract import register_block, stores_of
+    fn = prog.func(f"{MP}:Segment.__init__")
+    kept, rest = [], []
+    for i, st in enumerate(fn.body):
+        if isinstance(st, ast.Expr) and isinstance(st.value, ast.Constant):
+            continue    # docstring
+        if isinstance(st, (ast.Assign, ast.AnnAssign, ast.AugAssign)) and not rest:
+            kept.append(st)
+        else:
+            rest.append(st)
+    for st in rest:
+        names, _other = stores_of(st)
+        fields = {x.attr for x in ast.walk(st) if isinstance(x, ast.Attribute) and isinstance(x.ctx, (ast.Store, ast.Del))}
+        if (names | fields) & set(SEG_FIELDS):
+            raise KeyError(f"{MP}:Segment.__init__: a statement after the leading assignments writes a segment field (contract attachment lost)")
+    if not kept:
+        raise KeyError(f"{MP}:Segment.__init__: no leading assignments (contract attachment lost)")
+    return register_block(prog, f"{MP}:Segment.__init__", "Segment.fields.__init__", kept, ["self"] + list(SEG_FIELDS), "None")
 
 
 KNOBS = ("cpu_io_ratio", "num_pipelines", "num_operators")
@@ -65,6 +97,15 @@ def declare(S: Spec):
                                "self.storage_read_gb == storage_read_gb"],
          modifies=[], note="assumed summary of the Segment constructor for a scaling law given by name (fields = arguments); monitored natively")
     S.fns[f"{MP}:Segment.__init__"].trusted = True
+    S.fn(f"{MP}:Segment.fields.__init__", owners=["C15", "C14"],
+         params={"baseline_cpu_seconds": REAL, "memory_gb": Opt(REAL), "storage_read_gb": REAL},
+         requires=[],
+         ensures=[("segment-fields-are-the-arguments", "self.baseline_cpu_seconds == old(baseline_cpu_seconds) and self.memory_gb == old(memory_gb) "
+                                                       "and self.storage_read_gb == old(storage_read_gb)")],
+         modifies=[],
+         note="extracted from Segment.__init__: the leading plain assignments (before the scaling law is selected); discharges the field part of the "
+              "assumed constructor summary above - what stays assumed is that the rest of the constructor does not write these fields (scanned) "
+              "and that a normal return went through these statements")
 
     # ---- timing arithmetic of the constructor ---------------------------------------------------------
     S.fn(f"{MW}:gen_timing_init", owners=["C15"],
